@@ -18,7 +18,7 @@ RULE = (
     "A case is (transport in {tcp-lines, unix-lines, server loop}, message sequence 1..40 msgs of 1..4095 bytes, "
     "segmentation of hex+LF stream into segments with integer virtual arrival times, a read program with timeouts at k+0.3701 "
     "placed before/inside/after partially delivered lines, EOF at the end - for the server loop also in the same instant as the last segment -, "
-    "a write program in which chosen writes meet back-pressure until they time out: the peer must only see complete lines of written messages, in order). A reference model predicts the outcome of every "
+    "a write program in which chosen writes meet back-pressure until they time out: the peer must only see complete lines of written messages, in order). Read time limits come from the timeout argument or from an enclosing asyncio.timeout(). A reference model predicts the outcome of every "
     "read (message k / TimeoutError / end-of-stream b''). Short streams additionally get every single split point "
     "exhaustively. Non-trivial: a split inside a line, >=2 lines in one segment, or a timeout expiring inside a partially "
     "delivered line. Distinct by (messages, segmentation, read program)."
